@@ -247,6 +247,8 @@ static void do_pw(void) {
     fputs("OK st=", stdout);
     int first = 1;
     for (char* bt = strtok_r(h_tok[3], ",", &save); bt; bt = strtok_r(NULL, ",", &save)) {
+        /* "s0" / "s1" between batches: carquet_page_writer_set_statistics(off / on) in the middle of a page */
+        if (bt[0] == 's' && (bt[1] == '0' || bt[1] == '1') && !bt[2]) { carquet_page_writer_set_statistics(w, bt[1] == '1'); continue; }
         char* f[3]; int nf = 0; char* sv = NULL;
         for (char* x = strtok_r(bt, "/", &sv); x && nf < 3; x = strtok_r(NULL, "/", &sv)) f[nf++] = x;
         if (nf != 3) { fputs("?", stdout); continue; }
@@ -279,6 +281,14 @@ static void do_rd(void) {
     size_t n; void* base;
     uint8_t* file = h_unhex(h_tok[1], &n, 0, &base);
     int type = atoi(h_tok[2]), col = atoi(h_tok[3]), op = atoi(h_tok[4]), maxidx = atoi(h_tok[6]);
+    {   /* nested / multi-column schemas: "<t0>.<t1>...:<k>" = the leaf types and the column the statistics and data belong to */
+        char* colon = strchr(h_tok[2], ':');
+        if (colon) {
+            int k = atoi(colon + 1); char* q = h_tok[2];
+            for (int i = 0; i < k && q; i++) { q = strchr(q, '.'); if (q) q++; }
+            if (q) type = atoi(q);
+        }
+    }
     val_t probe = unhex(h_tok[5]);
     carquet_error_t err = CARQUET_ERROR_INIT;
     carquet_reader_t* r = carquet_reader_open_buffer(file, n, NULL, &err);
@@ -530,6 +540,7 @@ static void do_pmw(void) {
         long nonnull = 0; int wst = 0;
         char* sb = NULL;
         for (char* bt = strtok_r(pg, ",", &sb); bt; bt = strtok_r(NULL, ",", &sb)) {
+            if (bt[0] == 's' && (bt[1] == '0' || bt[1] == '1') && !bt[2]) { carquet_page_writer_set_statistics(w, bt[1] == '1'); continue; }
             char* fl[3]; int nf = 0; char* sv = NULL;
             for (char* x = strtok_r(bt, "/", &sv); x && nf < 3; x = strtok_r(NULL, "/", &sv)) fl[nf++] = x;
             if (nf != 3) continue;
